@@ -42,8 +42,12 @@ def generate(rng, tier, focus):
         who = rng.randrange(2)
         if c < 0.45:
             ops.append({"op": "walk", "who": who, "d": gen.rvec(rng, rng.choice([0.05, 0.5, scale]))})
-        elif c < 0.85:
+        elif c < 0.8:
             ops.append({"op": "jump", "who": who, "n": [rng.randint(-3, 3) for _ in range(3)]})
+        elif c < 0.88:
+            # almost a periodic image of the other body: a lattice shift (non-zero on every axis) plus a tiny offset
+            ops.append({"op": "near_image", "who": who, "n": [rng.choice([-3, -2, -1, 1, 2, 3]) for _ in range(3)],
+                        "off": [rng.choice([-1, 1]) * 10 ** rng.uniform(-7, -2.5) for _ in range(3)]})
         else:
             # put the second body almost half a box away from the first along one axis (near-tie side)
             ax = rng.randrange(3)
@@ -201,6 +205,11 @@ def execute(trace, ctx):
         if op["op"] == "walk":
             r[who].move(np.array(op["d"]))
             prev = check("walk")
+        elif op["op"] == "near_image":
+            c0 = np.array(r[1 - who].geometric_center, dtype=float)
+            r[who].move_to(c0 + np.array(op["off"]) + np.array(op["n"], dtype=float) @ box)
+            ctx.probe("near_periodic_image")
+            prev = check("near_image")
         elif op["op"] == "halfbox":
             c0 = r[1 - who].geometric_center
             target = c0.copy()
